@@ -1,6 +1,6 @@
 (* C16 — property theorems only. *)
 From Coq Require Import List Arith Bool.
-From GV Require Import C16.Model C16.Proofs.
+From GV Require Import C16.Model C16.Proofs C16.Files.
 Import ListNotations.
 
 (* 1. Every statement, of any nesting depth and shape, run by its canonical
@@ -41,6 +41,18 @@ Theorem C16_close_truncates : forall s s', bstep s OClose = Some s' -> stk s' = 
 Proof. exact close_truncates. Qed.
 Print Assumptions C16_close_truncates.
 
+(* 5. Whichever files are current: switching the current file anywhere inside a construct (any
+      interleaving l of file switches with the construct's operations) changes nothing - the
+      statement, body or function restores the state exactly as before and the current file is the
+      last one that was set. *)
+Theorem C16_balanced_whichever_files_are_current :
+  forall (l : list fop) s b sc f lb sv ns nf file,
+    strip l = compile s ->
+    frun l (mkSt b b sc f lb sv ns nf, file)
+      = Some (mkSt b b sc f lb sv (ns + nsc s) (nf + nfc s), last_file file l).
+Proof. intros l s b sc f lb sv ns nf file H. rewrite frun_strip, H, stmt_balanced. reflexivity. Qed.
+Print Assumptions C16_balanced_whichever_files_are_current.
+
 (* ---- non-vacuity ---- *)
 Example ex_nested :
   let s := CIf (CCons (CFor true true (CCons (CSwitch true (CCCons false (CCons (CClosure 2 (CCons (CReturn false) CNil)) (CCons (CInline (CCons CConstExpr (CCons CCall CNil))) (CCons (CVBlock (CCons CDefine (CCons (CBlock (CCons CCall CNil)) CNil))) CNil)))
@@ -48,3 +60,9 @@ Example ex_nested :
   run (compile s) (mkSt 3 3 7 2 4 [mkFrame 1 4 2 1] 10 5) = Some (mkSt 3 3 7 2 4 [mkFrame 1 4 2 1] (10 + nsc s) (5 + nfc s)) /\
   nsc s = 15 /\ nfc s = 2.
 Proof. vm_compute. repeat split. Qed.
+
+Example ex_files :
+  let s := CIf (CCons CAssign CNil) ENone in
+  let l := match compile s with a :: b :: r => FOp a :: FSet 2 :: FOp b :: FSet 1 :: map FOp r | _ => [] end in
+  strip l = compile s /\ last_file 0 l = 1.
+Proof. vm_compute. split; reflexivity. Qed.
